@@ -12,6 +12,7 @@ kept, cache cleared) and inserting blanks between tokens leave verdict and match
 from __future__ import annotations
 
 import itertools
+import re
 from dataclasses import dataclass
 
 from .. import boot  # noqa: F401
@@ -209,6 +210,7 @@ def with_blanks(tokens, ws="  "):
     return ws.join(out)
 
 
+CAPTURE_NAMES = ["first_child", "_c", "__c", "a__b", "c_c_c", "_a_b", "zz", "_", "c_", "C", "c1", "1c", "fooBar", "c-d", ""]
 WHITESPACE = ["  ", "\t", "\n", "\r\n", " \n  ", "\f"]   # every kind of whitespace both grammars ignore (common.WS)
 
 
@@ -285,6 +287,20 @@ def run_shard(cfg):
             if idx % of == k:
                 rec.rank = 1000 + idx
                 do_p("".join(m), ntok=len(m))
+    # (b'') spellings of a capture name: every name the documented grammar produces (lower-case letters and underscores, at any
+    # place but the end) is accepted wherever the one-letter name is; other spellings are only run for totality
+    for ci, toks in enumerate(PCORE):
+        if "c" not in toks:
+            continue
+        for ni, name in enumerate(CAPTURE_NAMES):
+            idx += 1
+            if idx % of == k:
+                rec.rank = 3000 + idx
+                renamed = [name if t == "c" and i and toks[i - 1] in ("->", "$") else t for i, t in enumerate(toks)]
+                good = re.fullmatch(r"[_a-z]*[a-z]", name) is not None
+                for text in ("".join(renamed), with_blanks(renamed, " ")):
+                    do_p(text, core=good, ntok=len(toks))
+                rec.outcome(f"capture-name:{'grammar' if good else 'other'}")
     # (b') captures and variables at every place of a template: accepted iff well-formed
     for p in placement_patterns():
         idx += 1
